@@ -50,7 +50,22 @@ def gen_bound_script(rng):
         L.append('W %s 5 - %d %d' % ((seed).to_bytes(4, 'big').hex(), ln, seed))
     for _ in range(rng.randrange(0, 3)):
         w(rng.choice([5, 100, 300]))
-    mode = rng.choice(['failsync', 'inflight', 'both'])
+    mode = rng.choice(['failsync', 'inflight', 'both', 'slowappend', 'slowappend'])
+    if mode == 'slowappend':
+        # the mirror image of `inflight`: an APPEND that has reserved its range is held back while a sync runs to
+        # completion. The bytes that land after that sync
+        # are acknowledged and must not be counted as synced.
+        big = rng.choice([lim * 2, lim * 3, 70000])
+        L.append('fail append .blob 0 delay:%d' % rng.choice([200, 300]))
+        seed += 1
+        L.append('overlap %d W %s 5 - %d %d | fsync' % (rng.choice([40, 80]), (seed).to_bytes(4, 'big').hex(), big, seed))
+        L.append('clearfail')
+        L.append('quiesce')
+        for _ in range(rng.randrange(0, 3)):
+            w(rng.choice([5, 100]))
+            L.append('quiesce')
+        L.append('#BOUND')
+        L.append('truedirty')
     if mode in ('failsync', 'both'):
         L.append('fail sync .blob 0 %s' % rng.choice(['EIO', 'ENOSPC']))
         w(lim * 2)
